@@ -515,3 +515,136 @@ func ruleCloseAwareContextUsed(c *Ctx, r *Report) {
 	}
 	r.Floor(rule, n, 2)
 }
+
+// ruleCloseErrorNormalised (C16): an operation that runs under a close-aware context reports an
+// interruption by Close as ErrConnClosed, not as the bare context.Canceled of a context the caller
+// never supplied. In every function that obtains such a context, explored from that point with
+// "the error is context.Canceled", "the cause is not the deadline" and "the connection is closed"
+// assumed (helpers followed), every return hands back ErrConnClosed.
+func ruleCloseErrorNormalised(c *Ctx, r *Report) {
+	const rule = "close-error-normalised"
+	n := 0
+	for _, s := range c.CallsTo(func(nm string) bool {
+		return strings.HasSuffix(nm, "dtls.Conn).contextWithClose") || strings.HasSuffix(nm, "dtls.Conn).contextWithCloseAndWriteDeadline")
+	}) {
+		call, ok := s.Call.(*ssa.Call)
+		if !ok {
+			continue
+		}
+		fn := s.Fn
+		res := fn.Signature.Results()
+		if res.Len() == 0 || !isErrorType(res.At(res.Len()-1).Type()) {
+			continue
+		}
+		n++
+		r.Sites += len(fn.Blocks)
+		isGlobalNamed := func(v ssa.Value, name string) bool {
+			u, ok := v.(*ssa.UnOp)
+			if !ok || u.Op != token.MUL {
+				return false
+			}
+			g, ok := u.X.(*ssa.Global)
+			return ok && g.Name() == name
+		}
+		w := &Walk{Fn: fn, Follow: followSamePkgExcept(fn, "writeApplicationData", "writePackets", "writePacketsWithResult"), FollowDeferring: true, Assume: func(v ssa.Value) (Val, bool) {
+			cl, ok := v.(*ssa.Call)
+			if !ok {
+				return unknown, false
+			}
+			switch nm := calleeName(&cl.Call); {
+			case nm == "errors.Is" && len(cl.Call.Args) == 2:
+				switch {
+				case isGlobalNamed(cl.Call.Args[1], "Canceled"):
+					return vBool(true), true
+				case isGlobalNamed(cl.Call.Args[1], "DeadlineExceeded"):
+					return vBool(false), true
+				}
+			case strings.HasSuffix(nm, "dtls.Conn).isConnectionClosed"):
+				return vBool(true), true
+			}
+			return unknown, false
+		}}
+		w.After(call)
+		bad := ""
+		for _, ro := range w.Returns {
+			if ro.Ret.Parent() != fn {
+				continue
+			}
+			last := len(ro.Raw) - 1
+			if last < 0 {
+				continue
+			}
+			v := unspill(ro.Raw[last])
+			if isGlobalNamed(v, "ErrConnClosed") {
+				continue
+			}
+			// the result of a followed helper: what the helper returned on the explored paths
+			if hc, isCall := v.(*ssa.Call); isCall {
+				if h := hc.Call.StaticCallee(); h != nil && len(h.Blocks) > 0 && w.Reached[h.Blocks[0].Instrs[0]] {
+					all, any := true, false
+					for _, hb := range h.Blocks {
+						hr, isRet := hb.Instrs[len(hb.Instrs)-1].(*ssa.Return)
+						if !isRet || !w.Reached[hr] || len(hr.Results) == 0 {
+							continue
+						}
+						any = true
+						if !isGlobalNamed(unspill(hr.Results[len(hr.Results)-1]), "ErrConnClosed") {
+							all = false
+						}
+					}
+					if any && all {
+						continue
+					}
+				}
+			}
+			bad = c.ipos(ro.Ret) + " returns " + c.describe(ro.Raw[last])
+		}
+		r.Check(bad == "" && len(w.Returns) > 0, rule, short(fn), c.ipos(call), "an interruption by Close is reported as ErrConnClosed", "with the operation's context cancelled because the connection was closed, "+bad+": the caller of a pending operation sees the bare context.Canceled of an internal context instead of a closed-connection error")
+	}
+	r.Floor(rule, n, 2)
+}
+
+// ruleCloseWritesBounded (C16): "Close ... returns": nothing on the close path writes to the
+// transport under a context that can never fire. In (*Conn).close every call that takes a
+// context receives one that derives from context.WithTimeout / WithDeadline (or from a context
+// of the connection), never context.Background() / context.TODO() itself: the close_notify write
+// is interruptible only through its context or by closing the transport, and the transport is
+// closed after it.
+func ruleCloseWritesBounded(c *Ctx, r *Report) {
+	const rule = "close-writes-bounded"
+	fn := c.need(r, rule, "(*dtls.Conn).close")
+	if fn == nil {
+		return
+	}
+	r.Sites += len(fn.Blocks)
+	n := 0
+	for _, b := range fn.Blocks {
+		for _, in := range b.Instrs {
+			call, ok := in.(*ssa.Call)
+			if !ok {
+				continue
+			}
+			callee := call.Call.StaticCallee()
+			if callee == nil || !inModule(callee) {
+				continue
+			}
+			for _, a := range call.Call.Args {
+				if !strings.HasSuffix(namedOrType(a.Type()), "context.Context") {
+					continue
+				}
+				n++
+				unbounded := ""
+				for _, l := range c.Origins(a, 0) {
+					if cl, isCall := l.(*ssa.Call); isCall {
+						switch calleeName(&cl.Call) {
+						case "context.Background", "context.TODO":
+							unbounded = calleeName(&cl.Call) + "()"
+						}
+					}
+				}
+				r.Check(unbounded == "", rule, short(fn)+"->"+callee.Name(), c.ipos(call), "the context handed over on the close path can fire", "on the close path "+callee.Name()+" is called with "+unbounded+": a transport whose send side is blocked keeps this write, and with it Close, from ever returning (the transport is closed only afterwards)")
+			}
+		}
+	}
+	r.Floor(rule, n, 1)
+}
